@@ -39,8 +39,10 @@ T = {
   "C22": ("model_checking", "4 C22", "IsIn/ChildState actions of Hsm.tla (QueriesPure checked by TLC) validated on recorded executions: result, "
           "no visible handler call, unchanged state, and unchanged behaviour of the following steps.",
           "TLC model checking of Hsm.tla + TLC trace validation"),
-  "C23": ("model_checking", "4 C23", "state_name/state_fn/current_state() compared with Hsm.tla's cur after start and every step on all hosts.",
-          "TLC trace validation against Hsm.tla"),
+  "C23": ("model_checking", "4 C23", "state_name/state_fn/current_state() compared with Hsm.tla's cur after start and every step on the sequential hosts; "
+          "on the active-object host (named and anonymous objects, composite start state, under controlled schedules) AOTrace.tla checks what the "
+          "object says about itself when start_at has returned and when it has come to rest.",
+          "TLC trace validation against Hsm.tla and AOTrace.tla (NameAfterStart / NameAtRest)"),
 }
 
 B_NOTE = ("Trusted: TLC, the deterministic scheduler and primitive shims of harness B (a single C-level container operation is atomic; "
@@ -63,11 +65,13 @@ T.update({
           "real LockingDeque and on queued charts with capacity 1-3 are validated by TLC.",
           "TLC model checking of AOSeq.tla + TLC trace validation (AOSeqTrace.tla, HsmTrace.tla)"),
   "C17": ("model_checking", "4 C17",
-          "The same chart table is built by hand-written text, template+registry, Factory and exec'd to_code text; every build's recorded execution is "
+          "The same chart table is built by hand-written text, template+registry, Factory and exec'd to_code text (also mixed: some states hand-written, "
+          "the others generated and nested under or around them); every build's recorded execution is "
           "validated by TLC against the one Hsm.tla behaviour (callback calls, entries/exits seen through the spy, queues, trace, final state).",
           "TLC trace validation of four builds against Hsm.tla"),
   "C18": ("model_checking", "4 C18",
-          "The same chart and events run under 10 configurations (host x decorator x live flags x clock); each recorded execution is validated by TLC "
+          "The same chart and events run under 10 configurations (host x decorator x live flags x clock; un-decorated states may carry a decorator "
+          "of the user's own; active objects named or anonymous); each recorded execution is validated by TLC "
           "against the same Hsm.tla behaviour, and the independent action logs are compared across configurations.",
           "TLC trace validation per configuration + cross-configuration comparison"),
   "C24": ("model_checking", "4 C24",
@@ -88,12 +92,14 @@ T.update({
           "TLC trace validation against the stable-priority-queue action of Fabric.tla"),
   "C13": ("model_checking", "4 C13",
           "FabricMC.tla checks OneThreadPerKind for all start/stop/clear sequences; on real executions TLC checks the number of live delivery "
-          "threads after every event, is_alive() answers, stop() really ending both threads, and delivery after restart.",
+          "threads after every event (also when a start() fails half way because a thread cannot be started), is_alive() answers, stop() really "
+          "ending both threads, and delivery after restart.",
           "TLC model checking of Fabric.tla + TLC trace validation (thread counts observed by the scheduler)"),
   "C07": ("model_checking", "4 C07",
           "Real active objects in generated configurations (decorated or not, instrumented or not, subscribe before/after start, from a handler or "
           "another thread, publish before/after start, other subscribers present) run under controlled schedules; PubSubTrace.tla decides for every "
-          "publication made after the system settled whether it reached every subscriber's chart exactly once per kind.",
+          "publication made after the system settled whether it reached every subscriber's chart exactly once per kind - also while another "
+          "subscriber is being stopped and a delivery thread is slow.",
           "TLC trace validation of real multi-object executions against PubSubTrace.tla"),
   "C09": ("model_checking", "4 C09",
           "Same executions as C07; at every delivery into an active object's queue TLC checks the position of the delivered event in the queue "
@@ -108,7 +114,8 @@ T.update({
   "C11": ("model_checking", "4 C11",
           "Timers.tla model-checks the timer/canceller protocol (no post after the cancel returned; no deadlock; termination); real cancel_event / "
           "cancel_events calls with ids and names rebuilt from text, racing the timer threads, are validated by TimerTrace.tla (no post after the "
-          "cancel returned, the other sources post exactly what is due).",
+          "cancel returned, the other sources post exactly what is due), including a second thread that cancels by name while the first one is starting "
+          "a source of that name (either order of the two calls is accepted; a later cancellation must silence the source).",
           "TLC model checking of Timers.tla + TLC trace validation of real executions"),
   "C12": ("model_checking", "4 C12",
           "stop() from another thread and from a handler, racing timer threads and posters: after it returns TLC checks on the recorded execution "
@@ -139,20 +146,23 @@ T.update({
           "systematic for all two-statement pairs) are validated by TLC, which computes the set of serial outcomes itself.",
           "TLC model checking of TSA.tla + TLC trace validation (TSATrace.tla) with serializability computed in TLA+"),
   "C28": ("other", "4 C28, 7",
-          "A grammar of 101 statement forms (reads in expressions and all six comparisons, augmented assignments to other variables and to the attribute "
-          "for 12 operators with spacing variants, assignments, the _lock form) is executed on real objects; TLC evaluates on each recorded result that no "
+          "A grammar of 105 statement forms (reads in expressions and all six comparisons, augmented assignments to other variables and to the attribute "
+          "for 12 operators with spacing variants, assignments, right-hand sides that call a helper which itself updates the attribute, the _lock form) is executed on real objects; TLC evaluates on each recorded result that no "
           "lock is held, nothing was raised and values equal those of plain attributes.",
           "grammar enumeration executed on the real descriptor, verdicts by TLC (TSATrace.tla)"),
   "C29": ("model_checking", "4 C29",
-          "Histories of new/assign/read over objects of two classes are replayed on real objects; TSATrace.tla keeps the per-object map and checks every read.",
+          "Histories of new / shallow-copy / assign / augmented-assign / read over objects of three classes (one with value equality) are replayed on real "
+          "objects; TSATrace.tla keeps the per-object map and checks every read.",
           "TLC trace validation against a per-instance map"),
   "C30": ("model_checking", "4 C30",
           "Singleton.tla is model-checked (one instance, same object for all, no deadlock); on the real SingletonDecorator all interleavings of two concurrent "
-          "first requests (and pre-emption-bounded ones of three) are enumerated for the five declared singleton classes and validated by TLC.",
-          "TLC model checking of Singleton.tla + exhaustive schedule enumeration of the real code validated by TLC"),
+          "first requests (and pre-emption-bounded ones of three) are enumerated for the five declared singleton classes and validated by TLC; "
+          "for 'the life of the process', histories of fabric start/stop/clear/subscribe/publish calls are validated by FabricTrace.tla, whose clause "
+          "NotSingle demands that every singleton still yields the object it yielded at first.",
+          "TLC model checking of Singleton.tla + exhaustive schedule enumeration of the real code validated by TLC + TLC trace validation (FabricTrace.tla)"),
   "C32": ("other", "4 C32, 7",
           "TraceText.tla defines Norm and the elementary edits and shows by evaluation over all short texts that equal Norm coincides with 'differ only in "
-          "timestamps, blank lines, surrounding whitespace'; TLC exports the universe, each text is rendered with real trace() bodies and fed to the real stripped().",
+          "timestamps, blank lines, surrounding whitespace'; TLC exports the universe, each text is rendered with real trace() bodies (whitespace as spaces, tabs and mixes) and fed to the real stripped().",
           "TLA+-defined equivalence + TLC-enumerated cases run through the real function"),
 })
 
